@@ -156,7 +156,14 @@ def write_evidence(prop, tier, seed, total, wall, workers, m, audit,
         + ". Cases are generated by a seeded PRNG per run "
         "(derive_rng('run', property, VERIF_SEED, run_index)) which draws the "
         "run's swarm configuration and its complete operation-and-fault list.",
-        "samples": total["samples"]
+        "samples": (
+            ([dict(total["full_sample"], note="smallest non-trivial run of "
+                   "this execution, written out in full: configuration, every "
+                   "operation with its world specs and faults, and the event "
+                   "log the simulator recorded while executing it")]
+             if total.get("full_sample") else [])
+            + total["samples"]
+        )
         or [{"note": "no non-trivial run in this (very short) execution"}],
         "simulated_runs": runs,
         "nontrivial_runs": total["nontrivial"],
